@@ -124,6 +124,11 @@ def traceStr (tr : List Event) : String :=
 
 def logsStr (ls : List Log) : String := joinWith ";" (ls.map Log.name)
 
+/-- what a receipt of the real block loop shows: error class, the result JSON's log list (successful
+    transactions only), `receipt.Logs` -/
+def receiptStr (rc : Receipt) : String :=
+  errName rc.err ++ " R[" ++ (if rc.err.isNone then logsStr rc.returned else "?") ++ "] G[" ++ logsStr rc.logs ++ "]"
+
 def finishCfg (st : St) : St :=
   let pre := st.pre
   let miners := st.miners
@@ -153,6 +158,20 @@ def step (st : St) (line : String) : St × String :=
       ({ st with w := w, idx := st.idx + 1 },
         errName rc.err ++ " E[" ++ traceStr rc.trace ++ "] R[" ++ logsStr rc.returned ++ "] G[" ++ logsStr rc.logs ++ "] " ++ w.dump)
     | _, _, _, _ => (st, "bad-op")
+  | "rtx" :: h :: origin :: "call" :: tgt :: v :: toks =>
+    -- one transaction of a block run by the unmodified VMExecutor.Execute: same model step, the answer is the receipt
+    match h.toNat?, parseAddr origin, parseAddr tgt, v.toNat?, parseFrame toks with
+    | some h, some o, some t, some v, some (f, []) =>
+      let (w, rc) := execTx st.cfg restore st.idx st.w { hash := h, origin := o, kind := .call t, value := v, body := f }
+      ({ st with w := w, idx := st.idx + 1 }, receiptStr rc)
+    | _, _, _, _, _ => (st, "bad-op")
+  | "rtx" :: h :: origin :: "create" :: v :: toks =>
+    match h.toNat?, parseAddr origin, v.toNat?, parseFrame toks with
+    | some h, some o, some v, some (f, []) =>
+      let (w, rc) := execTx st.cfg restore st.idx st.w { hash := h, origin := o, kind := .create, value := v, body := f }
+      ({ st with w := w, idx := st.idx + 1 }, receiptStr rc)
+    | _, _, _, _ => (st, "bad-op")
+  | ["rend"] => (st, st.w.dumpScratch)
   | ["dump"] => (st, st.w.dump)
   | _ => (st, "bad-op")
 
